@@ -37,16 +37,15 @@ Proof. intros t [_ [_ [H _]]]. exact H. Qed.
 Lemma inv_in_range : forall t, inv t -> in_range t.
 Proof. intros t [H _]. exact H. Qed.
 
-Definition erase_free (o : top) : bool :=
-  match o with OpErase _ | OpErasePos _ | OpEraseShift _ => false | _ => true end.
+(* every operation except erase_element_and_shift_left, whose key shift starts at the iterator erase returns *)
+Definition no_erase_shift (o : top) : bool := match o with OpEraseShift _ => false | _ => true end.
 
-(* insertions (plain, keyed, hinted with any hint) and index shifts *)
-Lemma step_good_ins : forall t m o, erase_free o = true -> good_pair t m ->
+Lemma step_good_basic : forall t m o, no_erase_shift o = true -> good_pair t m ->
   good_pair (step_tree t o) (step_map t m o).
 Proof.
   intros t m o Hf [Hi [Hd Ha]]. subst m.
   pose proof (inv_szinv2 t Hi) as Hz2. pose proof (szinv2_szinv t Hz2) as Hz.
-  destruct o as [k v|k|raw k d|k|raw|k n|k]; cbn [erase_free] in Hf; try discriminate; cbn [step_tree step_map].
+  destruct o as [k v|k|raw k d|k|raw|k n|k]; cbn [no_erase_shift] in Hf; try discriminate; cbn [step_tree step_map].
   - destruct (COTreeUpdate.insert_refines t k v Hi) as [A I]. split; [exact I|]. split; [|exact A].
     apply insert_dens; assumption.
   - destruct (COTreeUpdate.insert_key_refines t k Hi) as [A I]. split; [exact I|]. split; [|exact A].
@@ -57,6 +56,17 @@ Proof.
       apply insert_dens; assumption.
     + destruct (COTreeUpdate.insert_key_refines t k Hi) as [A I]. split; [exact I|]. split; [|exact A].
       apply insert_key_dens; assumption.
+  - destruct (COTreeUpdate.erase_key_refines t k Hi) as [A I]. split; [exact I|]. split; [|exact A].
+    apply erase_key_dens; assumption.
+  - destruct (resolve_hint t raw =? t_end t) eqn:E.
+    + split; [exact Hi|]. split; [exact Hd|reflexivity].
+    + apply N.eqb_neq in E.
+      assert (Hu : aget (t_arr t) (resolve_hint t raw) <> None).
+      { destruct (resolve_hint_valid t raw) as [V|V]; [contradiction|exact V]. }
+      destruct (COTreeUpdate.erase_pos_refines t _ Hi Hu) as [A I]. split; [exact I|]. split; [|exact A].
+      apply erase_pos_dens; try assumption.
+      destruct (N.eq_dec (t_size t) 0) as [Z|NZ]; [|lia].
+      exfalso. apply Hu. destruct (inv_size0_no_used t Hi Z) as [_ Hn]. apply Hn.
   - split; [apply increase_keys_from_inv; exact Hi|]. split.
     + apply increase_keys_from_dens; exact Hd.
     + apply increase_keys_from_abs; exact Hi.
@@ -68,55 +78,42 @@ Proof. split; [exact inv_empty_tree|]. split; [left; reflexivity|reflexivity]. Q
 Lemma run_both_fold : forall ops t m, fst (run_both ops t m) = fold_left step_tree ops t.
 Proof. induction ops as [|o r IH]; intros t m; cbn [run_both fold_left fst]; [reflexivity|apply IH]. Qed.
 
-Lemma run_both_good_ins : forall ops t m, forallb erase_free ops = true -> good_pair t m ->
+Lemma run_both_good_basic : forall ops t m, forallb no_erase_shift ops = true -> good_pair t m ->
   good_pair (fst (run_both ops t m)) (snd (run_both ops t m)).
 Proof.
   induction ops as [|o r IH]; intros t m Hf H; cbn [run_both fst snd]; [exact H|].
   cbn [forallb] in Hf. apply andb_true_iff in Hf. destruct Hf as [Ho Hr].
-  apply IH; [exact Hr|]. apply step_good_ins; assumption.
+  apply IH; [exact Hr|]. apply step_good_basic; assumption.
 Qed.
 
-(* histories of insertions (any mix of plain / keyed / hinted with arbitrary hints) and key shifts *)
-Theorem cotree_refines_map_insertions : forall ops, forallb erase_free ops = true ->
+(* histories of insertions (plain / keyed / hinted with arbitrary hints), erasures by key and by
+   iterator, and key shifts: the used slots in array (= in-order) order are the ordered map, the structural
+   invariant and the density bounds of OK() hold *)
+Theorem cotree_refines_map_basic : forall ops, forallb no_erase_shift ops = true ->
   abs_tree (run_tree ops) = run_map ops /\ inv_full (run_tree ops).
 Proof.
-  intros ops Hf. destruct (run_both_good_ins ops empty_tree [] Hf good_init) as [I [D A]].
+  intros ops Hf. destruct (run_both_good_basic ops empty_tree [] Hf good_init) as [I [D A]].
   unfold run_tree, run_map. rewrite <- (run_both_fold ops empty_tree []). split; [exact A|split; assumption].
 Qed.
 
 Section Assemble.
-  (* the per-operation refinement of the erasures *)
-  Hypothesis H_erase : forall t k, inv t ->
-    abs_tree (fst (erase_key t k)) = m_erase k (abs_tree t) /\ inv (fst (erase_key t k)) /\
-    lb_pos (fst (erase_key t k)) k (snd (erase_key t k)).
-  Hypothesis H_erase_pos : forall t p, inv t -> aget (t_arr t) p <> None ->
-    abs_tree (fst (erase_pos t p)) = m_erase (key_at (t_arr t) p) (abs_tree t) /\ inv (fst (erase_pos t p)).
+  (* the iterator erase(key) returns is the lower bound of the key in the new tree *)
+  Hypothesis H_erase_lb : forall t k, inv t -> lb_pos (fst (erase_key t k)) k (snd (erase_key t k)).
 
   Lemma step_good : forall t m o, good_pair t m -> good_pair (step_tree t o) (step_map t m o).
   Proof.
-    intros t m o H. destruct (erase_free o) eqn:Ef; [apply step_good_ins; assumption|].
+    intros t m o H. destruct (no_erase_shift o) eqn:Ef; [apply step_good_basic; assumption|].
     destruct H as [Hi [Hd Ha]]. subst m.
-    pose proof (inv_szinv2 t Hi) as Hz2. pose proof (szinv2_szinv t Hz2) as Hz.
-    destruct o as [k v|k|raw k d|k|raw|k n|k]; cbn [erase_free] in Ef; try discriminate; cbn [step_tree step_map].
-    - destruct (H_erase t k Hi) as [A [I _]]. split; [exact I|]. split; [|exact A].
-      apply erase_key_dens; assumption.
-    - destruct (resolve_hint t raw =? t_end t) eqn:E.
-      + split; [exact Hi|]. split; [exact Hd|reflexivity].
-      + apply N.eqb_neq in E.
-        assert (Hu : aget (t_arr t) (resolve_hint t raw) <> None).
-        { destruct (resolve_hint_valid t raw) as [V|V]; [contradiction|exact V]. }
-        destruct (H_erase_pos t _ Hi Hu) as [A I]. split; [exact I|]. split; [|exact A].
-        apply erase_pos_dens; try assumption.
-        destruct (N.eq_dec (t_size t) 0) as [Z|NZ]; [|lia].
-        exfalso. apply Hu. destruct (inv_size0_no_used t Hi Z) as [_ Hn]. apply Hn.
-    - destruct (H_erase t k Hi) as [A [I L]].
-      rewrite erase_element_and_shift_left_unfold.
-      assert (Hno : forall q, aget (t_arr (fst (erase_key t k))) q <> None ->
-                              key_at (t_arr (fst (erase_key t k))) q <> k).
-      { apply (m_find_abs_none _ k (inv_in_range _ I)). rewrite A. apply m_find_erase, inv_sorted, Hi. }
-      split; [apply (decr_from_inv _ k); assumption|]. split.
-      + rewrite <- erase_element_and_shift_left_unfold. apply erase_shift_dens; assumption.
-      + rewrite (decr_from_abs _ k _ I L Hno). rewrite A. symmetry. apply m_erase_shift_map.
+    pose proof (inv_szinv2 t Hi) as Hz2.
+    destruct o as [k v|k|raw k d|k|raw|k n|k]; cbn [no_erase_shift] in Ef; try discriminate; cbn [step_tree step_map].
+    destruct (COTreeUpdate.erase_key_refines t k Hi) as [A I]. pose proof (H_erase_lb t k Hi) as L.
+    rewrite erase_element_and_shift_left_unfold.
+    assert (Hno : forall q, aget (t_arr (fst (erase_key t k))) q <> None ->
+                            key_at (t_arr (fst (erase_key t k))) q <> k).
+    { apply (m_find_abs_none _ k (inv_in_range _ I)). rewrite A. apply m_find_erase, inv_sorted, Hi. }
+    split; [apply (decr_from_inv _ k); assumption|]. split.
+    + rewrite <- erase_element_and_shift_left_unfold. apply erase_shift_dens; assumption.
+    + rewrite (decr_from_abs _ k _ I L Hno). rewrite A. symmetry. apply m_erase_shift_map.
   Qed.
 
   Lemma run_both_good : forall ops t m, good_pair t m ->
